@@ -261,13 +261,26 @@ func genLayoutTree(rng *Rng, odd int) JObj {
 			"expected_materials", genRulesTree(rng, odd), "expected_products", genRulesTree(rng, odd))
 	}
 	l := O("_type", "layout", "steps", steps, "inspect", insp, "keys", keys)
-	if rng.Chance(25) {
+	// the three key maps (keys, rootcas, intermediatecas) are maps of their own: an id may occur in
+	// several of them, and every entry of every map is subject to the format rules - a well-formed
+	// entry in one map vouches for nothing in another
+	// (seeded change c12-key-maps-merged-before-validation)
+	caEntry := func() (string, JObj) {
 		id := genHex(rng, 64)
-		l = l.Set("rootcas", O(id, genKeyTree(rng, id)))
+		if len(ids) > 0 && rng.Chance(40) {
+			id = ids[rng.Intn(len(ids))]
+			return id, O("keyid", id, "keyid_hash_algorithms", []any{"sha256", "sha512"}, "keytype", "ecdsa",
+				"keyval", O("public", "-----BEGIN PUBLIC KEY-----\n"+genHex(rng, 16)+"\n-----END PUBLIC KEY-----"), "scheme", "ecdsa-sha2-nistp256")
+		}
+		return id, genKeyTree(rng, id)
+	}
+	if rng.Chance(25) {
+		id, e := caEntry()
+		l = l.Set("rootcas", O(id, e))
 	}
 	if rng.Chance(15) {
-		id := genHex(rng, 64)
-		l = l.Set("intermediatecas", O(id, genKeyTree(rng, id)))
+		id, e := caEntry()
+		l = l.Set("intermediatecas", O(id, e))
 	}
 	// expiry strings: the one accepted form, forms of neighbouring date layouts (RFC 3339 offsets,
 	// no zone, blank instead of T, lower-case z), forms Go accepts beyond the layout string
